@@ -79,6 +79,9 @@ func (c08Prop) Generate(seed uint64, idx int, tier string) *Plan {
 			}
 		}
 	}
+	if r.P(1, 20) {
+		fs = genBigFileSpec(r) // cuts are sampled for files this long
+	}
 	pl := &C08Plan{File: fs, Chunks: genChunks(r)}
 	for i := 0; i < 300; i++ {
 		pl.CutSample = append(pl.CutSample, r.Uint32())
